@@ -55,6 +55,7 @@ type Contract struct {
 	Inline      bool
 	Uses        []string
 	Missing     bool
+	Premises    []Clause // post-conditions assumed by callers but not proved (cryptographic premises), listed as assumptions
 	Nonlinear   bool
 	AssumeFrame string
 	Fn          *ssa.Function
@@ -92,7 +93,7 @@ type ContractSet struct {
 	Globals  map[string][]Clause // package path -> global invariants assumed at function entry
 }
 
-var reClauseHead = regexp.MustCompile(`^(requires|ensures|mustfail|assume)(\[[A-Z0-9, ]+\])?\s+(?:([A-Za-z0-9_\-]+):\s+)?(.*)$`)
+var reClauseHead = regexp.MustCompile(`^(requires|ensures|mustfail|assume|premise)(\[[A-Z0-9, ]+\])?\s+(?:([A-Za-z0-9_\-]+):\s+)?(.*)$`)
 
 func splitProps(s string) []string {
 	s = strings.Trim(s, "[]")
@@ -151,7 +152,7 @@ func LoadContracts(cs *ContractSet, pkgPath, file string) error {
 		line int
 	}
 	var logical []ll
-	kw := regexp.MustCompile(`^(func|property|safety|requires|ensures|mustfail|assume|modifies|loop|trusted|assert|pred|implementers|axiom|lemma|fresh|pure|declare|inline|nopanic|uses|global|assumeframe|nonlinear)\b`)
+	kw := regexp.MustCompile(`^(func|property|safety|requires|ensures|mustfail|assume|modifies|loop|trusted|assert|pred|implementers|axiom|lemma|fresh|pure|declare|inline|nopanic|uses|global|assumeframe|nonlinear|premise)\b`)
 	for i, l := range lines {
 		t := strings.TrimSpace(l)
 		if !strings.HasPrefix(t, "//@") {
@@ -294,7 +295,7 @@ func LoadContracts(cs *ContractSet, pkgPath, file string) error {
 				}
 				cur.Modifies = append(cur.Modifies, ml...)
 				cur.ModGiven = true
-			case "requires", "ensures", "mustfail", "assume":
+			case "requires", "ensures", "mustfail", "assume", "premise":
 				m := reClauseHead.FindStringSubmatch(s)
 				if m == nil {
 					return fail(fmt.Errorf("bad clause"))
@@ -320,6 +321,11 @@ func LoadContracts(cs *ContractSet, pkgPath, file string) error {
 						cl.Label = fmt.Sprintf("m%d", len(cur.MustFail))
 					}
 					cur.MustFail = append(cur.MustFail, cl)
+				case "premise":
+					if cl.Label == "" {
+						cl.Label = fmt.Sprintf("p%d", len(cur.Premises))
+					}
+					cur.Premises = append(cur.Premises, cl)
 				case "assume":
 					if cl.Label == "" {
 						cl.Label = fmt.Sprintf("a%d", len(cur.Assumes))
